@@ -31,7 +31,7 @@ def install(B, LenV):
             return LenV(len(x.pairs)) if x.opaque else len(x.pairs)
         if isinstance(x, ProxyV):
             return self.f_len(I, x.d)
-        if isinstance(x, (str, bytes)):
+        if isinstance(x, (str, bytes, bytearray)):
             return len(x)
         if isinstance(x, SymStr):
             return LenV(sum(len(p) for p in x.parts if isinstance(p, str)))
@@ -467,6 +467,22 @@ def install(B, LenV):
             if name in ("real",):
                 return o
             return Opaque(o.tag + "." + name)
+        if isinstance(o, bytearray):
+            def _buf(v):
+                if isinstance(v, (bytes, bytearray)):
+                    return v
+                if isinstance(v, Seq) and not v.has_seg() and all(isinstance(i, int) and not isinstance(i, bool) for i in v.items):
+                    return bytes(v.items)
+                raise Unknown("bytearray method given a value that is not modelled as a buffer")
+            if name == "extend":
+                return Builtin("bytearray.extend", lambda I_, v, _o=o: _o.extend(_buf(v)))
+            if name == "clear":
+                return Builtin("bytearray.clear", lambda I_, _o=o: _o.clear())
+            if name == "copy":
+                return Builtin("bytearray.copy", lambda I_, _o=o: bytearray(_o))
+            if name == "append":
+                return Builtin("bytearray.append", lambda I_, v, _o=o: _o.append(v) if isinstance(v, int) and not isinstance(v, bool) else (_ for _ in ()).throw(Unknown("bytearray.append of a non-int")))
+            raise Unknown("bytearray method " + name)
         if isinstance(o, (IterV, GenV)):
             if name == "__next__":
                 return Builtin("next", lambda I_, _o=o: self.f_next(I_, _o))
